@@ -676,8 +676,16 @@ def _r4_linear_search(ctx, f, m, need_equal_test, op):
     v = pat.single_def(ctx, f, pos) if isinstance(pos, ast.Name) else None
     src = text(v).replace(" ", "") if v is not None else ""
     base = text(m.base)
-    first_ge = ("enumerate(%s.coords)" % base) in src and \
-        ("ifval>=%s" % coord_text) in src and src.startswith("next(")
+    first_ge = False
+    if isinstance(v, ast.Call) and text(v.func) == "next" and v.args and \
+            isinstance(v.args[0], ast.GeneratorExp) and len(v.args[0].generators) == 1:
+        gen = v.args[0].generators[0]
+        if text(gen.iter).replace(" ", "") == "enumerate(%s.coords)" % base and \
+                isinstance(gen.target, ast.Tuple) and len(gen.target.elts) == 2 and \
+                len(gen.ifs) == 1:
+            valv = text(gen.target.elts[1])
+            first_ge = pat.catom(None, f, gen.ifs[0], True, False) == \
+                pat.A("<=", coord_text, valv)
     eq = False
     for n in f.own_nodes():
         if isinstance(n, ast.If) and block_always_leaves(n.body):
@@ -859,14 +867,14 @@ def r4_helpers(ctx):
     ctx.floor("C01.R4", lin, 1, "linear search in _coord2pos")
     # _coordExists
     f = ctx.method("Fiber", "_coordExists")
-    src = "".join(text(r.value) for r in pat.returns(f))
-    v = None
-    for r in pat.returns(f):
-        v = pat.inline(ctx, f, r.value).replace(" ", "")
-    if v in ("pos<len(self.coords)andself.coords[pos]==coord",
-             "self.coords[pos]==coordandpos<len(self.coords)") or \
-            (v and "pos<len(self.coords)" in v and "self.coords[pos]==coord" in v
-             and "or" not in v.replace("coord", "")):
+    rs = pat.returns(f)
+    ps = f.params
+    okx = False
+    if len(rs) == 1 and len(ps) >= 3:
+        want = {pat.A("<", ps[2], "len(%s.coords)" % ps[0]),
+                pat.A("==", "%s.coords[%s]" % (ps[0], ps[2]), ps[1])}
+        okx = pat.catoms(ctx, f, rs[0].value) == want
+    if okx:
         ctx.ok("C01.R4", f, pat.returns(f)[0], "_coordExists tests bound and equality")
     else:
         ctx.bad("C01.R4", f, f.node, "_coordExists is no longer `pos < "
